@@ -800,4 +800,38 @@ theorem ped_mh_vector (P : Ped) (s : PedState) (t k : ℕ)
       simp
     rw [h0]; ring
 
+/-! ### any listing of the pair's blanket (what `mcmc_sampler` hands to the exchange move) -/
+
+theorem mem_pairBlanket (P : Ped) (p q i : ℕ) :
+    i ∈ pairBlanket P p q ↔ i < P.size ∧ (i = p ∨ i = q ∨ isChild P p i = true ∨ isChild P q i = true) := by
+  unfold pairBlanket
+  rw [List.mem_filter, List.mem_range]
+  simp [Bool.or_eq_true, or_assoc]
+
+theorem pairBlanket_nodup (P : Ped) (p q : ℕ) : (pairBlanket P p q).Nodup :=
+  List.nodup_range.filter _
+
+/-- **what the exchange move may be handed**: any listing `L` of the pair's blanket — the two parents and
+    every individual with one of them as a parent, each exactly once, in any order — gives the prior factor
+    the detailed-balance theorem (`ped_swap_db`) is about.  (This is the oracle of the sampler-wiring
+    stream: set equality and no repetition.) -/
+theorem pairPrior_of_listing (f : Trio → ℚ) (P : Ped) (s : PedState) (p q : ℕ) (L : List ℕ)
+    (hnd : L.Nodup)
+    (hmem : ∀ i, i ∈ L ↔ i < P.size ∧ (i = p ∨ i = q ∨ isChild P p i = true ∨ isChild P q i = true)) :
+    (L.map (fun i => f (trioOf P s i))).prod = pairPrior f P s p q := by
+  unfold pairPrior
+  have hp : L.Perm (pairBlanket P p q) := by
+    rw [List.perm_ext_iff_of_nodup hnd (pairBlanket_nodup P p q)]
+    intro i; rw [hmem, mem_pairBlanket]
+  exact (hp.map _).prod_eq
+
+/-- a listing that repeats a member multiplies that member's inheritance term in once more: the factor
+    is `pairPrior · f(trio of the repeated member)`, so the Metropolis ratio built from it uses the square
+    of that trio's ratio -/
+theorem pairPrior_of_repeated (f : Trio → ℚ) (P : Ped) (s : PedState) (p q c : ℕ) (L : List ℕ)
+    (hL : L.Perm (c :: pairBlanket P p q)) :
+    (L.map (fun i => f (trioOf P s i))).prod = f (trioOf P s c) * pairPrior f P s p q := by
+  unfold pairPrior
+  rw [(hL.map _).prod_eq]; simp
+
 end MCHap.C18
